@@ -910,4 +910,86 @@ theorem tailBytes_failed (F : Facts) (k : Nat) (hFl : isLast k (lastQuery F fals
       Bool.false_eq_true, if_false]
     exact this
 
+/-! ### glue: producer, server responses -/
+
+/-- What `produce` leaves in the channel for a body that wrote `evs`: the chunk list. -/
+structure ChunksOf (c : Nat) (data : Bytes) (cs : List Bytes) : Prop where
+  concat : cs.flatten = data
+  shape : ∃ full tail, cs = full ++ (if tail = [] then [] else [tail]) ∧ (∀ ch ∈ full, ch.length = c) ∧
+    tail.length < c ∧ full.length = data.length / c ∧ tail.length = data.length % c
+  nonempty : ∀ ch ∈ cs, ch ≠ []
+
+theorem ChunksOf.unique {c : Nat} {data : Bytes} {cs1 cs2 : List Bytes}
+    (h1 : ChunksOf c data cs1) (h2 : ChunksOf c data cs2) : cs1 = cs2 := by
+  obtain ⟨f1, t1, e1, a1, b1, _, _⟩ := h1.shape
+  obtain ⟨f2, t2, e2, a2, b2, _, _⟩ := h2.shape
+  have hcat : f1.flatten ++ t1 = f2.flatten ++ t2 := by
+    have x1 := h1.concat; have x2 := h2.concat
+    rw [e1] at x1; rw [e2] at x2
+    have y1 : f1.flatten ++ t1 = data := by
+      rw [← x1]; by_cases h : t1 = [] <;> simp [h]
+    have y2 : f2.flatten ++ t2 = data := by
+      rw [← x2]; by_cases h : t2 = [] <;> simp [h]
+    rw [y1, y2]
+  obtain ⟨hf, ht⟩ := full_unique f1 f2 t1 t2 a1 a2 b1 b2 hcat
+  rw [e1, e2, hf, ht]
+
+theorem ChunksOf.length_le {c : Nat} {data : Bytes} {cs : List Bytes} (h : ChunksOf c data cs) :
+    cs.length ≤ data.length / c + 1 := by
+  obtain ⟨f, t, e, _, _, hl, _⟩ := h.shape
+  rw [e, List.length_append, hl]
+  split <;> simp
+
+theorem sink_run_chunks (F : Facts) (hF : F.SinkOk) (c : Nat) (hc : 1 ≤ c) (evs : List Ev) :
+    ∃ s, Sink.run F c {} evs = some s ∧ Sink.Good c s ∧ s.bytes = evBytes evs ∧
+      ChunksOf c (evBytes evs) (s.flushRemaining F).out := by
+  obtain ⟨s, h1, h2, h3⟩ := Sink.run_spec F hF c evs {} (Sink.good_init hc)
+  have hb : s.bytes = evBytes evs := by rw [h3]; simp [Sink.bytes]
+  refine ⟨s, h1, h2, hb, ?_⟩
+  have hout := Sink.flushRemaining_out F hF s
+  have hlen : s.out.length * c + s.buf.length = (evBytes evs).length := by
+    rw [← hb, Sink.bytes, List.length_append, flatten_length_full s.out h2.2]
+  obtain ⟨hk, ht⟩ := full_count hlen h2.1
+  refine ⟨?_, ⟨s.out, s.buf, hout, h2.2, h2.1, hk, ht⟩, ?_⟩
+  · rw [hout, ← hb, Sink.bytes]
+    by_cases h : s.buf = [] <;> simp [h]
+  · intro ch hch
+    rw [hout] at hch
+    rcases List.mem_append.mp hch with h | h
+    · intro hnil
+      have := h2.2 ch h
+      rw [hnil] at this; simp at this; omega
+    · by_cases hb' : s.buf = []
+      · simp [hb'] at h
+      · simp only [hb', if_false, List.mem_singleton] at h
+        rw [h]; exact hb'
+
+theorem produce_ok (F : Facts) (hF : F.SinkOk) (c : Nat) (hc : 1 ≤ c) (evs : List Ev) :
+    ∃ cs : List Bytes, produce F c evs .ok = some (cs.map .chunk ++ [.end]) ∧ ChunksOf c (evBytes evs) cs := by
+  obtain ⟨s, h1, _, _, h4⟩ := sink_run_chunks F hF c hc evs
+  exact ⟨_, by simp [produce, h1], h4⟩
+
+theorem produce_err (F : Facts) (hF : F.SinkOk) (hE : F.failSendsFail = true) (c : Nat) (hc : 1 ≤ c)
+    (evs : List Ev) (e : String) :
+    ∃ cs : List Bytes, produce F c evs (.err e) = some (cs.map .chunk ++ [.fail e]) ∧
+      (∀ ch ∈ cs, ch.length = c) ∧ cs.length = (evBytes evs).length / c ∧
+      ∃ rest, cs.flatten ++ rest = evBytes evs ∧ rest.length < c := by
+  obtain ⟨s, h1, h2, h3, _⟩ := sink_run_chunks F hF c hc evs
+  have hlen : s.out.length * c + s.buf.length = (evBytes evs).length := by
+    rw [← h3, Sink.bytes, List.length_append, flatten_length_full s.out h2.2]
+  exact ⟨s.out, by simp [produce, h1, hE], h2.2, (full_count hlen h2.1).1, s.buf, h3, h2.1⟩
+
+theorem produce_vanish (F : Facts) (hF : F.SinkOk) (c : Nat) (hc : 1 ≤ c) (evs : List Ev) :
+    ∃ cs : List Bytes, produce F c evs .vanish = some (cs.map .chunk) ∧ (∀ ch ∈ cs, ch.length = c) := by
+  obtain ⟨s, h1, h2, _, _⟩ := sink_run_chunks F hF c hc evs
+  exact ⟨s.out, by simp [produce, h1], h2.2⟩
+
+/-- The responses `n` successive `next` requests get on a freshly opened stream delivering `msgs`. -/
+def responses (F : Facts) (sv : Server) (msgs : List Msg) (n : Nat) : List Resp :=
+  (Server.nexts F n (sv.open msgs).1 (sv.open msgs).2).2
+
+theorem responses_eq (F : Facts) (hF : F.NextOk) (sv : Server) (msgs : List Msg) (n : Nat) :
+    responses F sv msgs n = expected n ((feedRun .fresh msgs).map (respOfPull F)) :=
+  Server.nexts_spec F hF _ n _ msgs none (Server.get_open sv msgs)
+
 end Repe.Svs
